@@ -869,6 +869,13 @@ def check_accounting_blocking(ctx, rep, pid):
                     continue
                 allowed = 'trigger_events' if fld == 'current_time' else 'process_event'
                 rep.ob(pid + '.R5', fn, 'writer:%s.%s' % (adt, fld), name == allowed, '%s.%s written in %s' % (adt, fld, name))
+    # the clock the accounting reads is the clock of this call: trigger_events stores its current_time parameter before any event is processed
+    te_ = F['trigger_events']
+    tea = an.get(te_)
+    cts = [(pe, v, site) for (pe, v, site) in field_stores(tea, 'current_time', 'Framework')]
+    pev = [b for (b, f, a, t) in calls(tea) if callee_str(f).endswith('::process_event')]
+    okc = len(cts) == 1 and strip_sites(cts[0][1]) in (('param', 3), ('load', ('param', 3))) and bool(pev) and all(tea.cfg.dominates(cts[0][2][0], b) for b in pev)
+    rep.ob(pid + '.R5', te_, 'call-time-stored-before-events', okc, 'stores of current_time in trigger_events: %d' % len(cts))
     fn = F['process_event']
     fa = an.get(fn)
     pf = an.paths(fn, history=True)
